@@ -1,5 +1,6 @@
 # stages per property; executed by ./check.  S(name, flavour, bin, args, env, tiers, kind, timeout)
 STAGES = {
+    "C05": [S("rel", "rel", "c05")],
     "C07": [S("rel", "rel", "c07")],
     "C08": [S("rel", "rel", "c08")],
     "C09": [S("rel", "rel", "c09"),
@@ -9,6 +10,7 @@ STAGES = {
     "C11": [S("rel", "rel", "c11")],
     "C12": [S("rel", "rel", "c12")],
     "C13": [S("rel", "rel", "c13")],
+    "C15": [S("rel", "rel", "c15")],
     "C16": [S("rel", "rel", "c16")],
     "C18": [S("rel", "rel", "c18")],
     "C19": [S("rel", "rel", "c19")],
